@@ -4,6 +4,6 @@ set -u
 ID=$1; PROP=$2; TIER=${3:-quick}
 cd /repo && git diff --quiet || { echo "/repo dirty"; exit 2; }
 git -C /repo apply /verif/seeded/$ID/patch.diff || { echo "patch does not apply"; exit 3; }
-cd /verif && ./check $PROP $TIER > /tmp/seedtest_$ID.log 2>&1; rc=$?
+cd /verif && VERIF_EVIDENCE_DIR=/verif/work/evidence-scratch ./check $PROP $TIER > /tmp/seedtest_$ID.log 2>&1; rc=$?
 git -C /repo checkout -- .
 echo "seed $ID vs $PROP $TIER: exit $rc"; grep -c '^VIOLATION' /tmp/seedtest_$ID.log; grep '^VIOLATION' /tmp/seedtest_$ID.log | cut -c1-300 | head -3; grep -E "^(INCONCLUSIVE|HELD)" /tmp/seedtest_$ID.log | cut -c1-300 | head -3
